@@ -60,14 +60,21 @@
 EXTENDS Integers, Sequences, SequencesExt, FiniteSets, FiniteSetsExt, TLC, Json, IOUtils
 
 \* ---- the class table (input) -------------------------------------------------
-\* [[cp, jt, jg], ...] for every code point of the universe (the characters the synthesized
-\* font maps); written by the driver from the dump of the unicode-joining-type crate.
-JtTriples == JsonDeserialize(IOEnv.X02_JT)
-JtFn == [c \in {JtTriples[i][1] : i \in DOMAIN JtTriples} |->
-           LET i == CHOOSE i \in DOMAIN JtTriples : JtTriples[i][1] = c
-           IN [jt |-> JtTriples[i][2], jg |-> JtTriples[i][3]]]
-Universe == DOMAIN JtFn
-ClassOfCp(c) == JtFn[c]
+\* [lo |-> first code point of the dense block, dense |-> <<[jt, jg] of lo, of lo+1, ...>>,
+\*  extra |-> <<<<cp, jt, jg>>, ...>>] : the class of every code point of the universe (the
+\* characters the synthesized fonts map); written by the driver from the dump of the
+\* unicode-joining-type crate (env X02_JT).
+JtFile  == JsonDeserialize(IOEnv.X02_JT)
+JtDense == JtFile.dense
+JtLo    == JtFile.lo
+JtExtra == JtFile.extra
+ExtraCps == {JtExtra[i][1] : i \in DOMAIN JtExtra}
+Universe == (JtLo .. JtLo + Len(JtDense) - 1) \cup ExtraCps
+ClassOfCp(c) ==
+  IF c >= JtLo /\ c < JtLo + Len(JtDense)
+  THEN [jt |-> JtDense[c - JtLo + 1][1], jg |-> JtDense[c - JtLo + 1][2]]
+  ELSE LET i == CHOOSE i \in DOMAIN JtExtra : JtExtra[i][1] = c
+       IN [jt |-> JtExtra[i][2], jg |-> JtExtra[i][3]]
 
 \* ZWNJ and ZWJ take part in joining (U and C) and are removed from the shaped run afterwards
 \* (gsub.rs strip_joiners); the font does not substitute them
@@ -100,10 +107,13 @@ NextNT(run, i) == LET s == {j \in NT(run) : j > i} IN IF s = {} THEN 0 ELSE Min(
 \* a run with its neighbour indices tabulated once (c.pv[i] = PrevNT(c.run, i), ...)
 LastLetter(run) == LET s == {j \in DOMAIN run : ~IsT(run[j]) /\ ~IsU(run[j])}
                    IN IF s = {} THEN 0 ELSE Max(s)
-Ctx(run) == [run  |-> run,
-             pv   |-> [i \in DOMAIN run |-> PrevNT(run, i)],
-             nx   |-> [i \in DOMAIN run |-> NextNT(run, i)],
-             last |-> LastLetter(run)]
+\* (TLCEval: TLC keeps [i \in S |-> e] as an unevaluated lambda and would recompute e at every
+\* application; forcing it turns the function into a tuple)
+Ctx(run0) == LET run == TLCEval(run0)
+             IN [run  |-> run,
+                 pv   |-> TLCEval([i \in DOMAIN run |-> PrevNT(run, i)]),
+                 nx   |-> TLCEval([i \in DOMAIN run |-> NextNT(run, i)]),
+                 last |-> LastLetter(run)]
 
 JoinedPrev(c, i) == LET p == c.pv[i] IN p # 0 /\ JoinsNext(c.run[p]) /\ JoinsPrev(c.run[i])
 JoinedNext(c, i) == LET n == c.nx[i] IN n # 0 /\ JoinsNext(c.run[i]) /\ JoinsPrev(c.run[n])
@@ -118,6 +128,14 @@ WordFinalC(c, i) == LET n == c.nx[i] IN n = 0 \/ IsU(c.run[n])
 WordFinal(run, i) == LET n == NextNT(run, i) IN n = 0 \/ IsU(run[n])
 
 Defects == {"tIsol", "alaphRunFinal", "alaphPrevGlyph"}
+
+\* attribution: the first set of defect readings, in this order (smallest first), under which an
+\* observation conforms; 0 if none
+OrderedDefectSets ==
+  << {}, {"tIsol"}, {"alaphRunFinal"}, {"alaphPrevGlyph"}, {"tIsol", "alaphRunFinal"},
+     {"tIsol", "alaphPrevGlyph"}, {"alaphRunFinal", "alaphPrevGlyph"}, Defects >>
+FirstOk(Ok(_)) == LET ks == {k \in DOMAIN OrderedDefectSets : Ok(OrderedDefectSets[k])}
+                  IN IF ks = {} THEN 0 ELSE Min(ks)
 
 \* forms acceptable for the ALAPH at i (a set: two elements only for Dev_LoneAlaph)
 AlaphAcc(S, c, i) ==
@@ -144,7 +162,7 @@ Primary(S, u, sc, c, i) ==
   LET a == Acc(S, u, sc, c, i)
   IN IF Cardinality(a) = 1 THEN CHOOSE x \in a : TRUE
      ELSE IF S \cap {"alaphRunFinal", "alaphPrevGlyph"} = {} THEN "isol" ELSE "fin2"
-FormsOfC(S, u, sc, c) == [i \in DOMAIN c.run |-> Primary(S, u, sc, c, i)]
+FormsOfC(S, u, sc, c) == TLCEval([i \in DOMAIN c.run |-> Primary(S, u, sc, c, i)])
 FormsOf(S, u, sc, run) == FormsOfC(S, u, sc, Ctx(run))
 LonePos(S, sc, c) == {i \in DOMAIN c.run : Cardinality(Acc(S, "isol", sc, c, i)) = 2}
 \* every conformant assignment of forms to the run
@@ -225,36 +243,41 @@ DesignOK(sc, run, f) ==
 \* ---- 3. stage order -----------------------------------------------------------------------
 \* (arabic.rs: ccmp | joining | LANGUAGE_FEATURES | TYPOGRAPHIC_FEATURES;  syriac.rs alike)
 St(f, g) == [f |-> f, global |-> g]
-Stages(sc) ==
-  IF sc = "arab"
-  THEN << St("ccmp", TRUE), St("locl", TRUE),
-          St("isol", FALSE), St("fina", FALSE), St("medi", FALSE), St("init", FALSE),
-          St("rlig", TRUE), St("rclt", TRUE), St("calt", TRUE),
-          St("liga", TRUE), St("mset", TRUE) >>
-  ELSE << St("ccmp", TRUE), St("locl", TRUE),
-          St("isol", FALSE), St("fina", FALSE), St("fin2", FALSE), St("fin3", FALSE),
-          St("medi", FALSE), St("med2", FALSE), St("init", FALSE),
-          St("rlig", TRUE), St("calt", TRUE),
-          St("liga", TRUE) >>
-StageNames(sc) == [k \in DOMAIN Stages(sc) |-> Stages(sc)[k].f]
+\* (zero-arity definitions, tabulated by script: TLC evaluates them once)
+StagesTab ==
+  [arab |-> << St("ccmp", TRUE), St("locl", TRUE),
+               St("isol", FALSE), St("fina", FALSE), St("medi", FALSE), St("init", FALSE),
+               St("rlig", TRUE), St("rclt", TRUE), St("calt", TRUE),
+               St("liga", TRUE), St("mset", TRUE) >>,
+   syrc |-> << St("ccmp", TRUE), St("locl", TRUE),
+               St("isol", FALSE), St("fina", FALSE), St("fin2", FALSE), St("fin3", FALSE),
+               St("medi", FALSE), St("med2", FALSE), St("init", FALSE),
+               St("rlig", TRUE), St("calt", TRUE),
+               St("liga", TRUE) >>]
+Stages(sc) == StagesTab[sc]
+StageNamesTab == [arab |-> TLCEval([k \in DOMAIN StagesTab.arab |-> StagesTab.arab[k].f]),
+                  syrc |-> TLCEval([k \in DOMAIN StagesTab.syrc |-> StagesTab.syrc[k].f])]
+StageNames(sc) == StageNamesTab[sc]
 StageIdx(sc, f) == CHOOSE k \in DOMAIN Stages(sc) : Stages(sc)[k].f = f
 \* features present in the font that the shaper must NOT apply by default
 ExtraFeatures(sc) == IF sc = "arab" THEN <<"clig", "dlig", "cswh">> ELSE <<"clig", "dlig">>
 \* every feature of the font; feature k is implemented by lookup LookupOf(sc, k): the lookup list
 \* is in the REVERSE of the stage order, so that applying lookups in lookup-list order is wrong
-FontFeatures(sc) == StageNames(sc) \o ExtraFeatures(sc)
+FontFeaturesTab == [arab |-> StageNamesTab.arab \o ExtraFeatures("arab"),
+                    syrc |-> StageNamesTab.syrc \o ExtraFeatures("syrc")]
+FontFeatures(sc) == FontFeaturesTab[sc]
 FeatIdx(sc, f)   == CHOOSE k \in DOMAIN FontFeatures(sc) : FontFeatures(sc)[k] = f
 LookupOf(sc, k)  == Len(FontFeatures(sc)) - k
 
 \* language systems of the font: the first is the default LangSys
 Ls(tag, feats) == [tag |-> tag, feats |-> feats]
 Rng(s) == {s[i] : i \in DOMAIN s}
-Langs(sc) ==
-  IF sc = "arab"
-  THEN << Ls("dflt", Rng(FontFeatures(sc))),
-          Ls("URD ", {"locl", "isol", "fina", "init", "calt", "dlig"}) >>     \* no medi, no ccmp
-  ELSE << Ls("dflt", Rng(FontFeatures(sc))),
-          Ls("SYR ", {"locl", "isol", "fina", "fin2", "med2", "init", "calt"}) >>
+LangsTab ==
+  [arab |-> << Ls("dflt", Rng(FontFeaturesTab.arab)),
+               Ls("URD ", {"locl", "isol", "fina", "init", "calt", "dlig"}) >>,     \* no medi, no ccmp
+   syrc |-> << Ls("dflt", Rng(FontFeaturesTab.syrc)),
+               Ls("SYR ", {"locl", "isol", "fina", "fin2", "med2", "init", "calt"}) >>]
+Langs(sc) == LangsTab[sc]
 \* find_langsys_or_default: an unknown or absent tag selects the default
 LangFeats(sc, lang) ==
   IF \E k \in 2 .. Len(Langs(sc)) : Langs(sc)[k].tag = lang
@@ -293,8 +316,9 @@ SumBits(sc, p, k) == IF k > Len(p) THEN 0 ELSE Pow2(StageIdx(sc, p[k]) - 1) + Su
 PathId(sc, p) == IF IsErr(p) THEN 32768 + FeatIdx(sc, p[2]) ELSE SumBits(sc, p, 1)
 
 \* the number a conformant shaper leaves on a glyph of form `form` (tabulated once)
-ExpTab == [sc \in Scripts |-> [k \in DOMAIN Langs(sc) |-> [fo \in FormOpts(sc) |->
-              PathId(sc, ShapeIdeal(sc, Langs(sc)[k].feats, fo))]]]
+\* (TLCEval: TLC keeps [x \in S |-> e] as an unevaluated lambda and would recompute e at every application)
+ExpTab == TLCEval([sc \in Scripts |-> TLCEval([k \in DOMAIN Langs(sc) |-> TLCEval([fo \in FormOpts(sc) |->
+              PathId(sc, ShapeIdeal(sc, Langs(sc)[k].feats, fo))])])])
 LangIdx(sc, lang) == IF \E k \in 2 .. Len(Langs(sc)) : Langs(sc)[k].tag = lang
                      THEN CHOOSE k \in 2 .. Len(Langs(sc)) : Langs(sc)[k].tag = lang ELSE 1
 ExpId(sc, lang, form) == ExpTab[sc][LangIdx(sc, lang)][form]
@@ -315,6 +339,7 @@ FontDesc(sc) ==
                    [tag |-> Langs(sc)[k].tag,
                     feats |-> SetToSeq({FeatIdx(sc, f) : f \in Langs(sc)[k].feats})]],
    stages   |-> StageNames(sc),
+   pos      |-> SetToSeq(PosForms(sc)),
    states   |-> SetToSeq({PathId(sc, p) : p \in Valid(sc)} \cup
                          {32768 + k : k \in DOMAIN FontFeatures(sc)}),
    trans    |-> SetToSeq({<<FeatIdx(sc, f), PathId(sc, p), PathId(sc, FontDelta(sc, p, f))>> :
